@@ -181,3 +181,57 @@ def poly_eval(p, env):
         for s in k: t *= env[s]
         tot += t
     return tot
+
+def float_forms(outs, insyms):
+    """coefficient matrix of syntactically linear outputs, propagated in double arithmetic (numpy) - for lengths where exact rational forms are out of reach.
+    Returns (len(outs) x (len(insyms)+1)) array, last column = constant term.  The coefficients are exactly what the code computes for the basis vectors, up to
+    the (few-ulp) rounding of this propagation; raises NonLinear when an output is not linear in the symbols."""
+    import numpy as np
+    K = len(insyms); idx = {s: i for i, s in enumerate(insyms)}
+    order = topo(outs); uses = {}
+    for f in order:
+        for a in f.args:
+            if isF(a): uses[a.id] = uses.get(a.id, 0) + 1
+    for o in outs:
+        if isF(o): uses[o.id] = uses.get(o.id, 0) + 1
+    val = {}
+    def g(a): return val[a.id] if isF(a) else float(a)
+    def rel(a):
+        if isF(a):
+            uses[a.id] -= 1
+            if uses[a.id] == 0: del val[a.id]
+    res = {}
+    outids = {o.id for o in outs if isF(o)}
+    for f in order:
+        op = f.op
+        if op == 'sym':
+            if f.args[0] not in idx: raise NonLinear(f'foreign symbol {f.args[0]}')
+            v = np.zeros(K + 1); v[idx[f.args[0]]] = 1.0
+        elif op == 'fneg':
+            a = g(f.args[0]); v = -a
+        elif op in ('fadd', 'fsub'):
+            a = g(f.args[0]); b = g(f.args[1]); sg = 1.0 if op == 'fadd' else -1.0
+            if isinstance(a, float) and isinstance(b, float): v = a + sg * b
+            elif isinstance(a, float): v = sg * b; v = v.copy() if sg == 1.0 else v; v[K] += a
+            elif isinstance(b, float): v = a.copy(); v[K] += sg * b
+            else: v = a + sg * b
+        elif op == 'fmul':
+            a = g(f.args[0]); b = g(f.args[1])
+            if isinstance(a, float) or isinstance(b, float): v = a * b
+            else: raise NonLinear('product of two input-dependent terms')
+        elif op == 'fdiv':
+            a = g(f.args[0]); b = g(f.args[1])
+            if not isinstance(b, float): raise NonLinear('division by an input-dependent term')
+            v = a / b
+        else: raise NonLinear(f'op {op}')
+        val[f.id] = v
+        if f.id in outids: res[f.id] = v
+        for a in f.args: rel(a)
+    rows = np.zeros((len(outs), K + 1))
+    for k, o in enumerate(outs):
+        if isF(o):
+            v = res[o.id]
+            if isinstance(v, float): rows[k, K] = v
+            else: rows[k] = v
+        else: rows[k, K] = float(o)
+    return rows
